@@ -263,6 +263,13 @@ func runSolver(ctx context.Context, sp solverSpec, file string, timeout time.Dur
 
 // race runs the installed solvers in parallel; the first definite answer wins.
 func race(file string, timeout time.Duration, expect string) SolveResult {
+	return raceWith(solvers, file, timeout)
+}
+
+// firstPass: the old z3 rarely wins a race and costs a process per obligation; it joins only the retry pass
+var firstPass = solvers
+
+func raceWith(solvers []solverSpec, file string, timeout time.Duration) SolveResult {
 	ctx, cancel := context.WithCancel(context.Background())
 	defer cancel()
 	type res struct {
